@@ -465,6 +465,103 @@ def tiling_rule(ctx, facts, cfg):
                           site=first_tx['node'].get('line'), fn=p, cfg=cfg)
 
 
+def same_configuration_fast_path(facts, g, gb, pname, full_reset, resets, gok, work_adt):
+    """`if work.is_configured(a..) { work.reset_received() } else { work.reset(a..) }`: the full reset may be skipped on the paths
+    behind the true edge of a private pure predicate P of the work object when
+      * P is a conjunction of equalities `self.f == <its parameter>` (and `self.<store>.len() == <parameter>`),
+      * P and the full reset get the same argument list, and P compares, position by position, every field the full reset
+        assigns from a parameter and the store's shard count with the parameter the full reset hands to the store's resize,
+      * the implicit reset (what Drop of the result calls) runs on those paths.
+    Returns the predicate's path, or None."""
+    from . import roles as roles_mod
+    RL = roles_mod.roles(facts)
+    side = 'enc' if work_adt == roles_mod.ENC_WORK else 'dec'
+    recv = RL.fn.get(side + '.reset_received')
+    fr = facts.fns.get(full_reset or '')
+    if len(resets) != 1 or fr is None or recv is None:
+        return None
+    rb, rt = resets[0]
+    rargs = [core.strip_var_ids(gb.canon_op(a)) for a in rt['args'][1:]]
+    # what the full reset does with its parameters
+    frp = fr.param_names()
+    assigned = {}
+    for blk in fr.body.blocks:
+        for st in blk['stmts']:
+            if st['k'] == 'assign' and st['lhs']['l'] == 1 and len(st['lhs']['p']) == 2 and st['lhs']['p'][0] == '*':
+                c = fr.body.canon_rv(st['rv'])
+                if c[0] == 'param' and c[1] in frp:
+                    assigned[st['lhs']['p'][1].get('f')] = frp.index(c[1])
+    store_count_param = None
+    for b, t in fr.body.calls():
+        if t['callee'].get('path') == RL.fn.get('store.resize') and len(t['args']) >= 2:
+            c = core.strip_var_ids(fr.body.canon_op(t['args'][1]))
+            if c[0] == 'param' and c[1] in frp:
+                store_count_param = frp.index(c[1])
+    if not assigned or store_count_param is None:
+        return None
+    for sb in range(gb.n):
+        t = gb.term(sb)
+        if t['k'] != 'switch' or gb.blocks[sb]['cleanup'] or len(t['targets']) != 1 or t['targets'][0][0] != 0:
+            continue
+        c = gb.canon_op(t['discr'])
+        neg = False
+        while c[0] == 'un' and c[1] == 'Not':
+            neg, c = (not neg), c[2]
+        if c[0] != 'call' or not isinstance(c[1], str):
+            continue
+        P = facts.fns.get(c[1])
+        if P is None or P.reachable or P.impl_self_adt != work_adt or P.output != 'bool' or not P.hir:
+            continue
+        pargs = [core.strip_var_ids(a) for a in c[2]]
+        if not pargs or pargs[0] not in (('param', pname), ('deref', ('param', pname)), ('ref', ('deref', ('param', pname)))) or pargs[1:] != rargs:
+            continue
+        t_edge = (sb, t['targets'][0][1] if neg else t['otherwise'])
+        f_edge = (sb, t['otherwise'] if neg else t['targets'][0][1])
+        if not gb.edge_dominates(f_edge, rb):
+            continue
+        # P: conjunction of equalities over (field of self | store getter) and own parameters
+        se = core.simple_expr_fn(P)
+        if se is None:
+            continue
+        conj = []
+
+        def flat(x):
+            if isinstance(x, tuple) and x and x[0] == 'and':
+                flat(x[1])
+                flat(x[2])
+            else:
+                conj.append(x)
+        pids = se[0]
+        flat(hcanon(se[1], {pid: ('pparam', i) for i, pid in enumerate(pids)}))
+        eq_fields, eq_store, okp = {}, None, True
+        for a in conj:
+            if not (isinstance(a, tuple) and a[0] == 'bin' and a[1] == 'Eq'):
+                okp = False
+                break
+            for x, y in ((a[2], a[3]), (a[3], a[2])):
+                if isinstance(y, tuple) and y[0] == 'pparam':
+                    if isinstance(x, tuple) and x[0] == 'field' and x[1] == ('pparam', 0):
+                        eq_fields[x[2]] = y[1]
+                    elif isinstance(x, tuple) and x[0] == 'call' and x[2] and isinstance(x[2][0], tuple) and x[2][0][0] == 'field' and x[2][0][1] == ('pparam', 0):
+                        getter = facts.fns.get(x[1]) if isinstance(x[1], str) else None
+                        gse = core.simple_expr_fn(getter) if getter is not None and getter.hir else None
+                        # a getter of the store returning its shard count
+                        if gse is not None:
+                            gv = hcanon(gse[1], {gse[0][0]: ('pparam', 0)})
+                            if isinstance(gv, tuple) and gv[0] == 'field' and gv[1] == ('pparam', 0) and 'count' in gv[2]:
+                                eq_store = y[1]
+        if not okp:
+            continue
+        if all(eq_fields.get(f) == i for f, i in assigned.items()) and eq_store == store_count_param:
+            # the implicit reset runs on every bypassing path
+            cleared = [b for b, t2 in gb.calls() if t2['callee'].get('path') == recv and gb.edge_dominates(t_edge, b)]
+            stop = frozenset([rb] + cleared)
+            reach = gb.reachable_from(0, stop=stop)
+            if cleared and not [ob for ob in gok if ob in reach and ob not in stop]:
+                return P.path
+    return None
+
+
 def handover_rule(ctx, facts, cfg):
     R = 'C05.e-handover-through-reset'
     n = 0
@@ -525,6 +622,12 @@ def handover_rule(ctx, facts, cfg):
             if resets and all(any(gb.dominates(b, ob) for b, _ in resets) for ob in gok) and gok:
                 good = True
                 ctx.ok(R, '%s@%s' % (p, cfg), {'via': core.short(q), 'reset_at': resets[0][1]['line']})
+                break
+            fp = same_configuration_fast_path(facts, g, gb, pname, full_reset, resets, gok, work_adt)
+            if fp:
+                good = True
+                ctx.ok(R, '%s@%s' % (p, cfg), {'via': core.short(q), 'reset_at': resets[0][1]['line'],
+                                              'fast_path': 'skipped only behind %s(..) comparing every configured field with the arguments the reset would get; the round state is cleared there' % core.short(fp)})
                 break
             why = '%s does not run the explicit reset of its work argument before every Ok return' % core.short(q)
         if not good:
